@@ -102,7 +102,7 @@ VERIF_MAIN_BEGIN
     tinyjambu_hash_state_t A_obj, *A = &A_obj;
     tinyjambu_hash_state_t *B = mk_state();
     unsigned char *in, *out = verif_alloc(32);
-    for (unsigned i = 0; i < 7; ++i) A->s[i] = IN_U64(raw[i]);
+    for (unsigned i = 0; i < 7; ++i) A->s[i] = IN_U64_AT(raw, i);
     IN_BYTES(in, in, LEN);
 #if OP == 0
     tinyjambu_hash_init(B);
@@ -111,7 +111,7 @@ VERIF_MAIN_BEGIN
 #elif OP == 2
     tinyjambu_hash_finalize(B, out);
 #elif OP == 3
-    { tinyjambu_hash_state_t C_obj; for (unsigned i = 0; i < 7; ++i) C_obj.s[i] = IN_U64(raw2[i]); tinyjambu_hash_free(&C_obj); (void)B; }
+    { tinyjambu_hash_state_t C_obj; for (unsigned i = 0; i < 7; ++i) C_obj.s[i] = IN_U64_AT(raw2, i); tinyjambu_hash_free(&C_obj); (void)B; }
 #else
     tinyjambu_hash(out, in, LEN);
 #endif
